@@ -20,7 +20,7 @@ REQUIRED = ["c17.names"]
 ASSUMPTIONS = ["probabilities that are not whole percentages may be rounded either way; only k/100 inputs are claimed"]
 TIMEOUT = 900
 NAME_RE = re.compile(r"^inputs/robot_(\d+)_w(\d+)_l(\d+)_r(\d+)_rb(\d+)_lb(\d+)_tb(\d+)_lt(\d+)(_force_down)?\.py$")
-MANUAL_RE = re.compile(r"^inputs/manual_robot_w(\d+)_l(\d+)_r(\d+)_rb(\d+)_lb(\d+)_tb(\d+)_(force_down)?\.py$")
+MANUAL_RE = re.compile(r"^inputs/manual_robot_w(\d+)_l(\d+)_r(\d+(?:\.\d+)?)_rb(\d+)_lb(\d+)_tb(\d+)_(force_down)?\.py$")
 PARAMS = ["p_robot", "p_light", "p_tile", "p_loose"]
 
 
@@ -179,6 +179,13 @@ def decide_manual(idx, seed0):
     mr = rng.randint(1, 9)
     rewards = [[rng.randint(0, mr) for _ in range(W)] for _ in range(L)]
     rewards[rng.randrange(L)][rng.randrange(W)] = mr
+    if idx % 5 == 1:
+        mr = 0                                    # a board without any reward
+        rewards = [[0] * W for _ in range(L)]
+    elif idx % 5 == 2:
+        mr = rng.choice([2.5, 0.5, 7.25])         # hand-made boards may carry non-integer rewards
+        rewards = [[rng.choice([0, 0.25, mr]) for _ in range(W)] for _ in range(L)]
+        rewards[rng.randrange(L)][rng.randrange(W)] = mr
     loose = [[rng.choice([0, 1]) for _ in range(W)] for _ in range(L)]
     ks = [rng.randint(1, 99) for _ in range(3)]
     with gc.Scratch() as sc_:
@@ -199,7 +206,8 @@ def decide_manual(idx, seed0):
         if not m:
             problems.append({"problem": "manual file name does not follow its grammar", "name": files[0]})
         else:
-            got = list(map(int, m.groups()[:6])) + [bool(m.group(7))]
+            g6 = m.groups()[:6]
+            got = [int(g6[0]), int(g6[1]), float(g6[2]) if "." in g6[2] else int(g6[2]), int(g6[3]), int(g6[4]), int(g6[5])] + [bool(m.group(7))]
             want = [W, L, mr] + ks + [fd]
             if got != want:
                 problems.append({"problem": "manual file name states %s, parameters were %s" % (got, want), "name": files[0]})
